@@ -19,6 +19,7 @@ type c13Oracle struct {
 	RemovedByGov bool
 	RemovedAt   time.Time
 	SlashedOnce bool
+	Readmitted  bool  // came back by add-delegate after a governance removal (its old stake was undelegated)
 	JoinHeight  int64 // height at which the oracle last came online (model's own record)
 }
 
@@ -172,6 +173,11 @@ func (m *c13Model) check(r *Run, c *bridgeChecks, s *Step, o *Outcome) []Violati
 				if !prev.Online && np.Online {
 					r.Probe("oracle-back-online")
 					mo.JoinHeight = w.Height
+					if mo.RemovedByGov {
+						// removed by governance (stake undelegated), approved again, back via add-delegate
+						mo.RemovedByGov, mo.Readmitted = false, true
+						r.Probe("readmitted-by-add-delegate")
+					}
 				}
 			}
 			r.Nontrivial = true
@@ -194,9 +200,19 @@ func (m *c13Model) check(r *Run, c *bridgeChecks, s *Step, o *Outcome) []Violati
 				if err == nil && val.Tokens.Equal(val.DelegatorShares.TruncateInt()) && val.DelegatorShares.IsInteger() {
 					del, err := w.App.StakingKeeper.GetDelegation(ctx, or.GetDelegateAddress(ch.Name), or.GetValidator())
 					if err != nil {
-						vs = append(vs, viol("stake-accounting", "delegation-missing", "%s: online oracle %s has no delegation at %s", ch.Name, or.OracleAddress, or.DelegateValidator))
+						site := "delegation-missing"
+						if mo.Readmitted {
+							site += "/readmitted-after-governance-removal"
+							mo.Known = false
+						}
+						vs = append(vs, viol("stake-accounting", site, "%s: online oracle %s has no delegation at %s", ch.Name, or.OracleAddress, or.DelegateValidator))
 					} else if !val.TokensFromShares(del.Shares).TruncateInt().Equal(or.DelegateAmount) {
-						vs = append(vs, viol("stake-accounting", "delegation-differs", "%s: oracle %s delegated %s, recorded stake %s", ch.Name, or.OracleAddress, val.TokensFromShares(del.Shares).TruncateInt(), or.DelegateAmount))
+						site := "delegation-differs"
+						if mo.Readmitted {
+							site += "/readmitted-after-governance-removal"
+							mo.Known = false // the ledger of this oracle is reported once
+						}
+						vs = append(vs, viol("stake-accounting", site, "%s: oracle %s delegated %s, recorded stake %s", ch.Name, or.OracleAddress, val.TokensFromShares(del.Shares).TruncateInt(), or.DelegateAmount))
 					}
 				}
 			}
